@@ -146,6 +146,26 @@ def mesh_in_mesh(item):
     return ok(bool(occs) and len(ss[1]) > 0)
 
 
+@check("C06.lazy")
+def lazy(item):
+    """The witnesses of small.occurrences_in(big) consumed ONE AT A TIME, while between two of them the same objects
+    are used for other searches (the same smaller pattern in another target, its underlying permutation in a
+    permutation): the lazily consumed listing must equal the one computed in one go."""
+    small, big, other = item
+    want = list(small.occurrences_in(big))
+    got = []
+    gen = small.occurrences_in(big)
+    twin = small.occurrences_in(other)
+    for occ in gen:
+        got.append(occ)
+        next(twin, None)                                   # a second, suspended search with the same pattern object
+        list(small.pattern.occurrences_in(other.pattern))  # the underlying classical pattern, fully
+        big.contains(small)
+    if got != want:
+        return bad(want, got, "occurrences_in consumed lazily with other searches in between vs consumed at once")
+    return ok(len(want) >= 2)
+
+
 @check("C06.multi")
 def multi(item):
     """big.contains(p1, ..., pk) reports that EVERY pi occurs in big, big.avoids(...) that none does: each must agree
@@ -258,6 +278,18 @@ def run(ctx):
     ctx.run("C06.multi", multis, chunk=20,
             rule="mesh patterns x seeded lists of 0-3 patterns (mesh and bivincular-type): contains(*patts) / avoids(*patts) vs the single "
                  "occurrence listings; non-trivial = some listed pattern occurs and some does not")
+    lz = []
+    for _ in range(300 if quick else 2000):
+        sm = rng.choice(m01 + m2[::7])
+        lz.append((sm, rng.choice(m3 + dense3), rng.choice(m3 + m2)))
+    for t in itertools.permutations(range(4)):  # many witnesses sharing prefixes: lightly shaded small patterns in unshaded targets
+        for sm_t in ((0, 1), (1, 0), (0, 1, 2), (1, 0, 2)):
+            lz.append((D.mesh(sm_t, ()), D.mesh(t, ()), D.mesh(t[::-1], ())))
+            lz.append((D.mesh(sm_t, [(0, 0)]), D.mesh(t, [(0, 0)]), D.mesh(t, ())))
+    lz += [(D.mesh((0,), ()), D.mesh((0, 1, 2, 3), ()), D.mesh((1, 0, 2), ())), (D.mesh((0, 1), ()), D.mesh((0, 1, 2, 3), ()), D.mesh((0, 1, 2), ()))]
+    ctx.run("C06.lazy", lz, chunk=50,
+            rule="seeded (small, big, other) triples: the listing of small in big consumed one witness at a time with a suspended second "
+                 "search and other searches on the same objects in between vs the listing in one go; non-trivial = at least two witnesses")
     ctx.exhaustive = False
     pm = [(p, b, tq) for p in D.perms_upto(3) for b in rng.sample(m2 + dense3, 150 if quick else 800)]
     ctx.run("C06.perm_in_mesh", pm, chunk=20, rule="classical pattern inside mesh pattern")
